@@ -1,6 +1,6 @@
 """C05 XML export/import round trip (writer/reader agreement)."""
 from prog import Program
-import effects, flags, xmltab, lists, snp, slots
+import effects, flags, xmltab, lists, snp, slots, union
 
 
 def run(chk, tier):
@@ -22,6 +22,9 @@ def run(chk, tier):
     chk.rule("R-XMLSLOTS", "both backends fill every callback slot")
     nl = xmltab.slots(chk, P)
     chk.floor("R-XMLSLOTS", "slot facts", nl, 14)
+    chk.rule("R-UNION", "the type-specific attribute union obj->attr is accessed only under a matching obj->type: every self-discriminating function is explored once per object type (21 values, product for two objects) by seeded constant propagation; guards are evaluated, not pattern-matched")
+    nun, nuf = union.run(chk, P, units=('topology-xml.c',))
+    chk.floor("R-UNION", "union accesses judged", nun, 60)
     chk.rule("R-SLOTLEN", "the two XML backends agree on length-delimited text buffers: an implementation of a callback slot that reads a (buffer, length) pair uses the length whenever its sibling does")
     nsl = slots.run(chk, P, E, records=("hwloc__xml_export_state_s", "hwloc_xml_backend_data_s", "hwloc_xml_callbacks"))
     chk.floor("R-SLOTLEN", "(implementation, buffer/length pair) facts", nsl, 6)
@@ -35,7 +38,8 @@ def run(chk, tier):
     r = snp.SnpRule(P, ["topology-xml-nolibxml.c"])
     st = r.run(chk)
     chk.floor("R-SNP", "producer call sites in the built-in exporter", st["producers"], 10)
-    chk.decided += ["element content (userdata, value arrays) is written with exactly the announced length by both backends",
+    chk.decided += ['export and import access the attribute union only under the matching object type',
+                    "element content (userdata, value arrays) is written with exactly the announced length by both backends",
                     "nothing that is exported is ignored on import (attribute names and child tags, per element)", "every support bit is carried",
                     "what the built-in backend escapes it unescapes", "both backends implement the whole interface", "exports start from refreshed distances; file/buffer variants agree"]
     chk.undecided += ["equality of values after the trip, byte-identical re-export", "libxml2's own behaviour", "the v2 downgrade mapping tables"]
